@@ -31,6 +31,25 @@ CLAIMS = {
              tech="Coq proof (induction over the block) + correspondence", ref="5 C11"),
 }
 
+CLAIMS.update({
+ "C05": dict(text="Proof: for every program: subroutines = callsub targets (dead code included), subroutine blocks = local reachability from the entry (LIFO DFS with sufficient fuel), caller tables = retained call sites, return point = the following block or none; for structured programs the function graph satisfies all mirror/coverage facts (graph_wf) the dataflow proofs need. Tie: correspondence on subroutine tables and graph dumps + independent law checker on the implementation's dumps.",
+             note="Proved about Model/Cfg.v parse_teal / Model/Detect.v whole_function. The call-graph printer (DOT export) is not yet read back: that clause is partial.",
+             tech="Coq proof (DFS invariant, boolean reflection) + correspondence", ref="5 C05"),
+ "C07": dict(text="Proof (partial by a recorded finding): the finite obligation table over the REGENERATED label universes: for every comparison pattern x side x detector-relevant label, the label of every concrete (TypeEnum, OnCompletion, ApplicationID) passing that side is kept -- except exactly the 32 triples of known finding D16 (table computed by vm_compute, proved exact in both directions); full statement refuted with witness. Tie: regenerated enums, correspondence on transaction_types of every block, interpreter oracle over all kind valuations.",
+             note="D16 is pinned by tests/transaction_context/test_transaction_types.py and therefore recorded, not repaired. A new dropped label falsifies C07_dropped_table_is.",
+             tech="Coq finite computation lifted by lemma (vm_compute + forallb_forall) + correspondence", ref="5 C07"),
+ "C10": dict(text="Proof: index classification (gtxn i / int i; gtxns / GroupIndex +- k; gtxns, both operand orders) and key matching attribute every read to the transaction the AVM really reads (Spec/Eval.v), for all groups and indices. Tie: correspondence on all 63 sub-contexts (at-index, absolute, relative) of every block; interpreter oracle on other group members' values.",
+             note="Soundness of the sub-contexts along runs follows the same composition as C06/C08/C09 (RunLemmas/ExecLemmas) for the absolute and relative families; the at-index refinement (_update_gtxn_constraints) is covered by correspondence + oracle: partial.",
+             tech="Coq proof over a concrete group semantics + correspondence", ref="5 C10"),
+ "C19": dict(text="Proof: regenerated opcode/field tables = AVM specification tables (versions, modes, per-version costs 1..8, field versions) by kernel computation over all 178 opcode classes, with explicit (now almost empty) exclusion lists; _verify_version / mode detection / block cost hand-modelled and tied by correspondence (flags parsed from stderr, costs from block comments).",
+             note="Spec/AvmTables.v is a hand transcription of the AVM spec (trusted; no assembler offline). Remaining exclusions: Method version (pseudo-op, uncertain). Known finding D22: ed25519verify is LogicSig-only in v1-v4 programs (single mode per class in the tool).",
+             tech="Coq vm_compute over regenerated tables vs spec tables + correspondence", ref="5 C19"),
+ "C20": dict(text="Proof: reported matches = exactly the straight-line occurrences reachable from the label (independent reachability definition), no duplicates, listed in order; covered instructions all lie on a path to a match and every match is reached through covered instructions; completeness of 'covered' refuted (D14). Tie: correspondence on match lists and covered sets over programs x labels x patterns.",
+             note="Known finding D14 (covered set incomplete at joins/loops). parse of the regex file header (re module) is not modelled.",
+             tech="Coq proof (DFS relation, mutual induction) + correspondence", ref="5 C20"),
+})
+
+
 def check_entry(pid, c):
     return {
         "property_id": pid,
